@@ -45,6 +45,16 @@ def main(prop):
 
     if prop in ("C01", "C07"):
         lemmas.repo_pairs_validation(run)
+    if prop == "C07":
+        # the reported text must be the engine's whole match (group 0) and the reported address its prefix: the
+        # forwarding harness of C12 (engine stubbed) — a rule with capture groups must not change what is reported
+        from vlib import ch as _ch
+        from checks import c12
+
+        hs7 = [h for h in c12.harnesses(tier()) if "/modes/" in h.name or "/first_addr/" in h.name][:4]
+        for h in hs7:
+            h.key = "reported_text_" + h.key
+        _ch.run_harnesses(run, hs7)
     leaves = {"C01": leafharness.c01_leaves, "C02": leafharness.c02_leaves}.get(prop)
     if leaves:
         hs = leaves(tier())
